@@ -66,6 +66,10 @@ theorem dbgExec_noterm (F : LoopFacts) (g : Graph) (mk : Nat → Bool) (d : Dbg)
         exact ⟨apply_noterm d c h (fun e => hc.1 e.symm), hc.2⟩
   · simp [hv]; exact ⟨h, hc⟩
 
+@[simp] theorem bump_cur (S : Setup) (fr : DFrame) : (S.bump fr).cur = fr.cur := rfl
+@[simp] theorem bump_m (S : Setup) (fr : DFrame) : (S.bump fr).m = fr.m := rfl
+@[simp] theorem bump_start (S : Setup) (fr : DFrame) : (S.bump fr).start = fr.start := rfl
+
 theorem consult_frame (S : Setup) (d : DCfg σ) (fr : DFrame) :
     (consult S d fr).2.st = d.st ∧ (consult S d fr).2.stack = d.stack ∧ (consult S d fr).2.ctl = d.ctl ∧
       (consult S d fr).2.trace = d.trace ∧ (consult S d fr).2.dbg.fDepth = d.dbg.fDepth := by
@@ -73,7 +77,7 @@ theorem consult_frame (S : Setup) (d : DCfg σ) (fr : DFrame) :
 
 theorem consult_noterm (S : Setup) (d : DCfg σ) (fr : DFrame) (h : NoTerm d) :
     (consult S d fr).1 = false ∧ NoTerm (consult S d fr).2 := by
-  have := dbgExec_noterm S.F S.g S.marked d.dbg (S.m fr) d.cmds d.trace.length h.1 h.2
+  have := dbgExec_noterm S.F S.g (S.hit fr.prev) d.dbg (S.m fr) d.cmds d.trace.length h.1 h.2
   exact ⟨this.1, this.2.1, this.2.2⟩
 
 theorem dapply_proj (S : Setup) (d : DCfg σ) (a : Act) (h : NoTerm d) :
@@ -123,7 +127,7 @@ theorem dstep_proj (S : Setup) (P : Prog σ) (d : DCfg σ) (h : NoTerm d) :
     | nil => simp [DCfg.proj, hc, hs]; exact h
     | cons fr rest =>
       by_cases hx : S.F.execFirst = true
-      · have key := dapply_proj S { d with st := (P.step d.st fr.cur false).1, trace := fr.cur :: d.trace }
+      · have key := dapply_proj S { d with st := (P.step d.st fr.cur false).1, trace := fr.cur :: d.trace, log := .exec fr.cur.owner :: d.log }
           (P.step d.st fr.cur false).2 h
         simp only [DCfg.proj, hs, List.map_cons] at key
         simp only [DCfg.proj, hc, hs, hx, List.map_cons, if_true]
@@ -131,7 +135,7 @@ theorem dstep_proj (S : Setup) (P : Prog σ) (d : DCfg σ) (h : NoTerm d) :
       · have hq := consult_noterm S d fr h
         have hf := consult_frame S d fr
         have key := dapply_proj S { (consult S d fr).2 with st := (P.step d.st fr.cur false).1,
-                                                            trace := fr.cur :: d.trace }
+                                                            trace := fr.cur :: d.trace, log := .exec fr.cur.owner :: d.log }
           (P.step d.st fr.cur false).2 hq.2
         simp only [DCfg.proj, hf.2.1, hs, List.map_cons] at key
         simp only [DCfg.proj, hc, hs, hx, hq.1, List.map_cons]
@@ -324,7 +328,7 @@ def Silent (es : List Event) (d : DCfg σ) : Prop := d.dbg.mode = .terminate ∧
 
 theorem consult_silent (S : Setup) (es : List Event) (d : DCfg σ) (fr : DFrame) (h : Silent es d) :
     Silent es (consult S d fr).2 := by
-  have := dbgExec_terminated S.F S.g S.marked d.dbg (S.m fr) d.cmds d.trace.length h.1
+  have := dbgExec_terminated S.F S.g (S.hit fr.prev) d.dbg (S.m fr) d.cmds d.trace.length h.1
   unfold Silent consult
   simp [this.1, this.2, h.1, h.2]
 
